@@ -3,6 +3,7 @@ import TgModel.Props.C01
 import TgModel.Props.C02
 import TgModel.Props.C06
 import TgModel.Props.C07
+import TgModel.Props.C08
 import TgModel.Props.C10
 import TgModel.Props.C14
 import TgModel.Props.C15
